@@ -908,6 +908,45 @@ def _generate(ctx):
             yield ("corr", "s_sqrt", [SECP, (x ** 3 + 7) % P])
     yield ("corr", "s_sqrt", [SECP, 0])
     yield ("corr", "s_sqrt", [SECP, P])
+    # non-canonical representatives of a coordinate: a 32-byte field can hold c + p only when c < 2^32 + 977, so the
+    # points are CONSTRUCTED from a tiny coordinate (tiny y: cube root of y^2 - 7, p = 7 mod 9; tiny x: square root)
+    tiny = []
+    y = 1
+    while len([t for t in tiny if t[2] == "y"]) < ctx.n(3, 10):
+        c = (y * y - 7) % P
+        x = pow(c, (P + 2) // 9, P)
+        if pow(x, 3, P) == c:
+            tiny.append((x, y, "y"))
+        y += 1
+    x = 1
+    while len([t for t in tiny if t[2] == "x"]) < ctx.n(3, 10):
+        for odd in (False, True):
+            q = lift(x, odd)
+            if q:
+                tiny.append((q[0], q[1], "x"))
+        x += 1
+    for (x, y, which) in tiny:
+        ctx.label("parse/coordinate+p (tiny " + which + ")")
+        xs = [x, x + P] if x + P < (1 << 256) else [x]
+        ys = [y, y + P] if y + P < (1 << 256) else [y]
+        for xx in xs:
+            for yy in ys:
+                b65 = b"\x04" + xx.to_bytes(32, "big") + yy.to_bytes(32, "big")
+                yield ("corr", "s_parse", [SECP, b65])
+                yield ("corr", "s_parse_sec", [SECP, b65])
+                yield ("prop", "parse", [b65])
+            for pre in (2, 3):
+                b33 = bytes([pre]) + xx.to_bytes(32, "big")
+                yield ("corr", "s_parse_sec", [SECP, b33])
+                yield ("prop", "parse", [b33])
+            yield ("corr", "s_parse_xonly", [SECP, xx.to_bytes(32, "big")])
+            yield ("prop", "parse", [xx.to_bytes(32, "big")])
+        # the constructor with integers congruent to the coordinates but outside [0, p)
+        for (xx, yy) in ((x, y + P), (x, y - P), (x + P, y), (x - P, y), (x, -(P - y)), (x + P, y + P)):
+            yield ("corr", "pt_new", [SECP, xx, yy])
+    for (xx, yy) in ((GX, GY - P), (GX, GY + P), (GX - P, GY), (GX, -GY), (GX, GY + 2 * P)):
+        ctx.label("constructor/coordinate outside [0,p)")
+        yield ("corr", "pt_new", [SECP, xx, yy])
     # wrong lengths: every length 0..70 with each interesting first byte; parse_xonly on any length
     for ln in range(0, 71):
         for pre in (0, 2, 3, 4):
